@@ -1,6 +1,7 @@
 import CssVerif.Lemmas.Ns
 import CssVerif.Lemmas.NsShare
 import CssVerif.Lemmas.NsCalls
+import CssVerif.Lemmas.NsStray
 /-!
 # C15 — namespace declarations and namespaced selectors stay consistent
 
@@ -1159,5 +1160,62 @@ example :
     (wstep (wrun W2.w0 [.grab false 1 W2.pa, .on false (.delRule 1), .share true none true])
       (.on false (.delNs W.p))).2 = .ok none := by
   decide
+
+/-- T15.5: the region of C15-rule-in-two-sheets — the followed object sits in the list of a sheet that is not its
+parent (`Stray`) — is entered by `to.insertRule(obj)` while the other sheet still lists the object (`EntersStray`)
+and by NOTHING else: no operation on either sheet (namespace operations with their roll-backs, deletions,
+insertions, `selectorText =`), no `grab`, no insertion of an object that is in no other list. For every world. -/
+theorem stray_only_by_sharing (w : World) (op : WOp) (h : ¬ Stray w) (hne : ¬ EntersStray w op) :
+    ¬ Stray (wstep w op).1 :=
+  not_stray_iff.mpr (owned_wstep w op (not_stray_iff.mp h) hne)
+
+/-- T15.5 (invariant form): "both sheets consistent and no rule in a foreign list" is preserved by EVERY operation
+of the two-sheet model whose guard is just the region of an open finding — `OpOk` of the one-sheet model, the
+receiving sheet declares the object's URIs (C15-foreign-style-rule), the object is in no other list when it is
+inserted (C15-rule-in-two-sheets); `selectorText =` on the object needs no guard here. -/
+theorem wgood_unshared_step (w : World) (op : WOp) (h : WGood w) (hs : ¬ Stray w) (hok : WOpOkUnshared w op) :
+    WGood (wstep w op).1 ∧ ¬ Stray (wstep w op).1 := by
+  obtain ⟨h1, h2⟩ := wopOk_of_unshared hs hok
+  exact ⟨wgood_step_partial w op h h1, stray_only_by_sharing w op hs h2⟩
+
+/-- … along every history: in particular the proper move (out of one sheet, then into the other) and any number of
+namespace operations on both sheets never lose consistency -/
+theorem wgood_unshared_run (ops : List WOp) : ∀ (w : World), WGood w → ¬ Stray w → WAllOkUnshared w ops →
+    WGood (wrun w ops) ∧ ¬ Stray (wrun w ops) := by
+  induction ops with
+  | nil => intro w h hs _; exact ⟨h, hs⟩
+  | cons op t ih =>
+    intro w h hs hall
+    obtain ⟨h1, h2⟩ := wgood_unshared_step w op h hs hall.1
+    exact ih _ h1 h2 hall.2
+
+/-- non-vacuity: the proper move is admissible from the witness world, the sharing step is not -/
+example : ¬ Stray W2.w0 ∧
+    WAllOkUnshared W2.w0 [.grab false 1 W2.pa, .on false (.delRule 1), .share true none true,
+      .objSel [[.q .typeSel (.named W.z) W.a]], .on false (.delNs W.p)] ∧
+    EntersStray (wstep W2.w0 (.grab false 1 W2.pa)).1 (.share true none true) := by
+  refine ⟨?_, ⟨trivial, trivial, ⟨?_, ?_⟩, trivial, trivial, trivial⟩, ?_⟩
+  · intro hs
+    obtain ⟨o, sd, ho, _, _⟩ := hs
+    simp [W2.w0] at ho
+  · intro o ho u hu
+    have e : (wstep (wstep W2.w0 (.grab false 1 W2.pa)).1 (.on false (.delRule 1))).1.obj =
+        some { sels := [[.q .typeSel (.uri W.u1) W.a]], owner := none, own := [[(W.p, W.u1)]],
+               posA := none, posB := none } := by decide
+    rw [e] at ho
+    cases ho
+    have : u = W.u1 := by simpa [selsUris, itemUris, W.u1] using hu
+    subst this
+    decide
+  · intro hs
+    obtain ⟨o, ho, hp⟩ := hs
+    have e : (wstep (wstep W2.w0 (.grab false 1 W2.pa)).1 (.on false (.delRule 1))).1.obj =
+        some { sels := [[.q .typeSel (.uri W.u1) W.a]], owner := none, own := [[(W.p, W.u1)]],
+               posA := none, posB := none } := by decide
+    rw [e] at ho
+    cases ho
+    simp [Obj.pos] at hp
+  · exact ⟨{ sels := [[.q .typeSel (.uri W.u1) W.a]], owner := some false, own := [[(W.p, W.u1)]],
+             posA := some 0, posB := none }, by decide, by decide⟩
 
 end CssVerif.C15
